@@ -41,7 +41,8 @@ META = dict(
     theorems=[],       # filled below
     tie_theorems=[],
     rule='random rational T (entries k/4, det != 0, not orthogonal), random parity-consistent expansions (n-|p| even >= 0), random '
-         'expansions with an isotropic invertible leading matrix and positive relative orders, Nmax 0..2 shifted by the leading order, '
+         'expansions with an isotropic invertible leading matrix and positive relative orders, overall scale 2^k (k in -40..40, dense around the '
+         'code\'s absolute tolerances 1e-10/1e-8), Nmax 0..2 shifted by the leading order, '
          '2-D and 3-D; a case is one call; non-trivial = result has a non-zero coefficient; distinct by request text; malformed: '
          'l > n, leading l > 0, equal first powers, singular leading matrix',
     trusted=['numpy semantics of tensordot / pad / linalg.inv as modelled by OnsagerModel/C16Ten.lean'],
@@ -181,6 +182,14 @@ def gen_cases(ctx, cls, dim, count):
                     else:
                         a[0] = (n0, 0, np.zeros((1,) + tuple(shape), dtype=complex))
                 rng.shuffle(a)
+                # overall scale over many decades (exact powers of two, so that scaling commutes with rounding):
+                # inversion is homogeneous of degree -1; absolute tolerances in the code (1e-10, 1e-8) must not matter
+                rs = rng.random()
+                kexp = 0 if rs < 0.3 else (rng.randint(-40, 40) if rs < 0.65 else rng.randint(-38, -24))
+                sc = 2.0 ** kexp
+                a_unit = c16.copy_cl(a)
+                a = [(n, l, cc * sc) for n, l, cc in a]
+                ctx.count('inv:scale-2^%+03d..' % (10 * (kexp // 10)))
                 a0 = c16.copy_cl(a); A = cls(a)
                 import warnings
                 def run():
@@ -189,7 +198,23 @@ def gen_cases(ctx, cls, dim, count):
                         return A.inv(Nmax).coefflist
                 res = c16._try(run)
                 c = c16.Case(pref + 'inv %d %s' % (Nmax, c16.ser_coeffs(a0)), [('inv', res)], 'inv',
-                             dict(rp, a=c16.ser_coeffs(a0), Nmax=Nmax, malformed=bad))
+                             dict(rp, a=c16.ser_coeffs(a0), Nmax=Nmax, malformed=bad, scale='2**%d' % kexp))
+                if res[0] == 'ok' and not malformed and kexp != 0:
+                    # metamorphic oracle: inv(s*a) = inv(a)/s  (same terms, coefficients equal relative to their scale)
+                    def run1():
+                        with warnings.catch_warnings():
+                            warnings.simplefilter('error')
+                            return cls(c16.copy_cl(a_unit)).inv(Nmax).coefflist
+                    r1 = c16._try(run1)
+                    why = None
+                    if r1[0] != 'ok':
+                        why = 'inv(a) raises %s but inv(s*a) succeeds' % (r1[1],)
+                    else:
+                        why = c16.coeffs_close([(int(n), int(l), np.asarray(cc) / sc) for n, l, cc in r1[1]], res[1], rel=True)
+                    if why:
+                        oracle_fail('inv:scaling', 'inv(s*a) != inv(a)/s for s = 2**%d: %s' % (kexp, why),
+                                    dict(c.replay, inv_scaled=c16.ser_coeffs(res[1])[:1200],
+                                         inv_unscaled=(c16.ser_coeffs(r1[1])[:1200] if r1[0] == 'ok' else r1[1])))
                 if res[0] == 'ok' and not malformed:
                     # through-order oracle: inv(a) * a = 1 + O(n > Nmax + n0), provided all products stay within Lmax
                     lmax_t = max([l for _, l, _ in a0])
@@ -267,7 +292,7 @@ def check_answers(ctx, cls, cases, answers):
                 k = np.unravel_index(np.argmax(np.abs(M - N)), N.shape)
                 why = 'npowtrans differs by %.3g at [n,pold,pnew]=%s: model %r code %r' % (err, tuple(int(x) for x in k), M[k], N[k])
         else:
-            why = c16.coeffs_close(c16.parse_coeffs(body), res[1])
+            why = c16.coeffs_close(c16.parse_coeffs(body), res[1], rel=(c.tag == 'inv'))
             nontriv = any(np.any(np.asarray(x[2]) != 0) for x in res[1])
         if why:
             ctx.disagree('model/implementation differ on %s (%s): %s' % (c.tag, mode, why),
